@@ -347,7 +347,8 @@ ENVOV = [{"X": "1"}, None, {"X": "over", "Y": "2"}]
 def _cmd(i, rc, makes):
     """a real shell command with the scripted behaviour (the model ignores its text; the real replay executes it)"""
     mk = "; ".join([f"mkdir -p $(dirname {f}) && printf 'DATA:{f}' > {f}" for f in makes])
-    return f"sh -c \"printf out{i}; printf err{i} >&2; {mk + '; ' if mk else ''}exit {rc}\""
+    # the real replay also records the environment each command sees (X, Y: the overridable variables) in a side file named by $VERIF_ENVLOG
+    return f"sh -c \"printf out{i}; printf err{i} >&2; printf '%s,%s;' \\\"$X\\\" \\\"$Y\\\" >> $VERIF_ENVLOG; {mk + '; ' if mk else ''}exit {rc}\""
 
 
 def _mk_job(n, named_mask, retsel, filesel, envsel, rcs, makes_last):
@@ -455,6 +456,8 @@ def _real_run(job0, spec, n, rcs, first_fail, makes, ret):
     base = tempfile.mkdtemp(prefix="c17_")
     saved = (RUN.arg_parser, os.getcwd(), os.environ.get("X"))
     os.environ["X"] = "base"
+    os.environ["VERIF_ENVLOG"] = f"{base}/envlog"
+    os.environ.pop("Y", None)
     try:
         os.makedirs(f"{base}/in")
         job0.dump(f"{base}/in/j1.inp")
@@ -482,10 +485,15 @@ def _real_run(job0, spec, n, rcs, first_fail, makes, ret):
             return False
         if out.input_hash != job0.hash or out.exitcode != rcs[n_runs - 1]:
             return False
+        want_env = dict({"X": "base"}, **(spec["envars"] or {}))
+        seen = open(f"{base}/envlog").read().split(";")[:-1] if os.path.isfile(f"{base}/envlog") else []
+        if seen != [f"{want_env.get('X', '')},{want_env.get('Y', '')}"] * n_runs:
+            return False                                         # every command saw the process environment overridden by the job's variables
         all_ok = first_fail is None and set(makes) == set(ret)
         return (code == 0) == all_ok and code != "returned"
     finally:
         RUN.arg_parser = saved[0]
+        os.environ.pop("VERIF_ENVLOG", None)
         os.chdir(saved[1])
         if saved[2] is None:
             os.environ.pop("X", None)
